@@ -82,6 +82,9 @@ class ComputeRun:
                 for t in teams[1:]:
                     for j, p in enumerate(t):
                         p.mu, p.sigma = teams[0][j].mu, teams[0][j].sigma
+                        if identical == "twins":
+                            # deep copies of one rating: the id is shared too
+                            p.id, p.name = teams[0][j].id, teams[0][j].name
             ctx.assume(term(params["kappa"]) <= 1)
             prior = [[(p.mu, p.sigma) for p in t] for t in teams]
             objs = [list(t) for t in teams]
